@@ -27,7 +27,8 @@ import (
 )
 
 type PCfg struct {
-	Rw map[string][]string `json:"rw"`
+	Rw    map[string][]string `json:"rw"`
+	Scope string              `json:"scope"` // whose modifiers hold the rewrite rules: global | source | dest
 }
 
 type PTxn struct {
@@ -51,7 +52,10 @@ func pipeID(a string) string {
 
 func runPipeBehaviour(t *testing.T, b PBehaviour, out *bufio.Writer) {
 	tr := vtrace.New(out, b.ID)
-	tr.Emit("Cfg", vtrace.Ev{"rw": map[string]interface{}{"A": b.Cfg.Rw["A"], "B": b.Cfg.Rw["B"]}})
+	if b.Cfg.Scope == "" {
+		b.Cfg.Scope = "global"
+	}
+	tr.Emit("Cfg", vtrace.Ev{"rw": map[string]interface{}{"A": b.Cfg.Rw["A"], "B": b.Cfg.Rw["B"]}, "scope": b.Cfg.Scope})
 
 	var sb strings.Builder
 	entries := 0
@@ -68,10 +72,22 @@ func runPipeBehaviour(t *testing.T, b PBehaviour, out *bufio.Writer) {
 		tbl.WriteString("\n")
 		entries++
 	}
+	modify := ""
 	if entries > 0 {
-		sb.WriteString("modify {\n    replace_rcpt static {\n" + tbl.String() + "    }\n}\n")
+		modify = "modify {\n    replace_rcpt static {\n" + tbl.String() + "    }\n}\n"
 	}
-	sb.WriteString("deliver_to verifscripted T1\n")
+	switch b.Cfg.Scope {
+	case "global":
+		sb.WriteString(modify + "deliver_to verifscripted T1\n")
+	case "source": // sender@pipe.invalid matches the source block
+		sb.WriteString("source pipe.invalid {\n" + modify + "deliver_to verifscripted T1\n}\n" +
+			"default_source {\n    reject\n}\n")
+	case "dest": // every recipient is routed to the destination block before its modifiers run
+		sb.WriteString("destination pipe.invalid {\n" + modify + "deliver_to verifscripted T1\n}\n" +
+			"default_destination {\n    reject\n}\n")
+	default:
+		t.Fatalf("unknown scope %q", b.Cfg.Scope)
+	}
 
 	tgt := &scripted.NamedTarget{TName: "T1", Tr: tr, Partial: true, ID: pipeID,
 		Plan: []scripted.NPlan{{Status: b.Txn.St}}}
